@@ -26,8 +26,16 @@ def add(run, tier):
     # length, the single-walk rules for every kind of value -- what carries the per-production runs (lists of length 0..3) to all lists
     import contracts.ruletypes as crt
     rm = importlib.import_module('calmjs.parse.ruletypes')
-    verify_functions(run, crt.build(rm) + crt.build_declare(rm), {}, {}, tier=tier)
+    verify_functions(run, crt.build(rm) + crt.build_declare(rm) + crt.build_deferrables(rm), {}, {}, tier=tier)
     rule_constants(run, rm, um)
+    # ... and the layout handlers of handlers/core.py (contracts/corehandlers.py): for ALL neighbour texts the space handlers
+    # consult required_space for exactly the boundary pair (the pattern itself: E3 obligations class.required_space_*), the
+    # character handlers print the node's own ';' / '{' / '}' with its position
+    import contracts.corehandlers as cch
+    hm = importlib.import_module('calmjs.parse.handlers.core')
+    am = importlib.import_module('calmjs.parse.asttypes')
+    verify_functions(run, cch.build(hm, am), {}, {}, tier=tier)
+    cch.constants(run, hm)
 
 
 def rule_constants(run, rm, um):
